@@ -261,7 +261,7 @@ def antiamp_script(r, idx, fate_vec=None):
         steps.append({"do": "run_until", "what": "connected", "max_us": 10000000})
         for _ in range(r.choice([3, 8, 20])):
             steps.append({"do": "run", "us": r.choice([0, 1000, 4999, 5000, 19999, 20000, 20001, 100000])})
-            steps.append({"do": "raw_short", "to": r.choice([0, 0, 1]), "len": r.choice([17, 20, 21, 22, 37, 38, 39, 40, 41, 43, 100, 1200, 1500]), "salt": r.randrange(1 << 20)})
+            steps.append({"do": "raw_short", "to": r.choice([0, 0, 1]), "len": r.choice([17, 20, 21, 22, 100, 1200, 1500] + list(range(23, 64))), "salt": r.randrange(1 << 20)})
     elif fam == "shortinit":
         if r.random() < 0.5:
             cfg["fates_c2s"] = ["shrink:%d" % r.choice([200, 600, 1100, 1199, 1199, 1200])] + cfg["fates_c2s"][1:]
@@ -918,8 +918,10 @@ def hostile_raw(r, idx):
     cfg["fates_s2c"] = [r.choice(menu) if r.random() < 0.6 else "ok" for _ in range(n)]
     steps = [{"do": "connect", "n": 1}, {"do": "connect", "n": 2}]
     for _ in range(r.choice([5, 20, 60])):
-        ln = r.choice([0, 1, 2, 5, 6, 7, 20, 21, 22, 100, 1199, 1200, 1201, 1500])
+        ln = r.choice([0, 1, 2, 5, 6, 7, 20, 21, 22, 100, 1199, 1200, 1201, 1500] + list(range(8, 70)))
         data = bytes(r.randrange(256) for _ in range(ln))
+        if ln and r.random() < 0.4:
+            data = bytes([0x40 | (data[0] & 0x3f)]) + data[1:]      # short-header shaped (stateless reset path)
         if ln and r.random() < 0.5:
             # long header shaped: version / cid lengths at their boundaries
             hdr = bytes([0xc0 | r.randrange(64)]) + r.choice([b"\x00\x00\x00\x01", b"\x00\x00\x00\x00", b"\xff\x00\x00\x1d", b"\x0a\x1a\x2a\x3a"]) \
